@@ -473,12 +473,16 @@ type stOpts struct {
 	Inner        string
 	OuterRaw     *string // overrides the outer URL altogether
 	Accept       []hdr
+	PlainSig     bool // sign with ts = now exactly (the flow an honest proxy starts)
 }
 
 func (w *world) start(f *idp, r *c.Rng, o stOpts, sample bool) (stepOut, string) {
 	now := time.Now()
 	tab := newTab()
 	si, ts := genSig(r, o.Inner, now, o.SigOK)
+	if o.PlainSig {
+		si, ts = sigInfo{Text: sign(clientSecret, o.Inner, now.Unix()), Key: clientSecret, Msg: o.Inner + fmt.Sprint(now.Unix())}, fmt.Sprint(now.Unix())
+	}
 	tab.addSig(si)
 	outer := authSignInURL(o.Slug, o.OuterOK, o.Inner, si, ts)
 	if o.OuterRaw != nil {
@@ -572,21 +576,32 @@ func (w *world) callback(f *idp, r *c.Rng, o cbOpts, sample bool) stepOut {
 
 func enc(s string) string { return base64.URLEncoding.EncodeToString([]byte(s)) }
 
-// startGenuine runs a real /start and returns (nonce, state form value, outer URL)
-func (w *world) startGenuine(f *idp, r *c.Rng, slug string) (string, string, string, stepOut) {
-	s, outer := w.start(f, r, stOpts{Slug: slug, Method: "GET", OuterOK: true, SigOK: true, Inner: goodRedirects[0]}, false)
+// startGenuine runs a real /start as an honest proxy would cause it and returns (nonce, state form
+// value, outer URL). ok = false: the code under test did not answer 302 with one CSRF cookie — that
+// is an OBSERVATION (the caller emits the step as a case, which the model then contradicts), never
+// a harness error.
+func (w *world) startGenuine(f *idp, r *c.Rng, slug string) (string, string, string, stepOut, bool) {
+	s, outer := w.start(f, r, stOpts{Slug: slug, Method: "GET", OuterOK: true, SigOK: true, Inner: goodRedirects[0], PlainSig: true}, false)
 	if s.Obs.Status != 302 || len(s.Obs.CsrfVals) != 1 {
-		c.Must(fmt.Errorf("could not start a genuine flow: status %d", s.Obs.Status))
+		return "", "", outer, s, false
 	}
 	u, err := url.Parse(fmt.Sprint(s.Obs.LocJSON))
-	c.Must(err)
-	return s.Obs.CsrfVals[0], u.Query().Get("state"), outer, s
+	if err != nil {
+		return "", "", outer, s, false
+	}
+	return s.Obs.CsrfVals[0], u.Query().Get("state"), outer, s, true
 }
 
 func (w *world) genCallback(f *idp, r *c.Rng) c.Case {
 	slug := r.Pick(slugs)
-	n1, genuineState, outer1, _ := w.startGenuine(f, r, slug)
-	n2, _, _, _ := w.startGenuine(f, r, slug)
+	n1, genuineState, outer1, s1, ok1 := w.startGenuine(f, r, slug)
+	if !ok1 {
+		return w.reqCase(s1)
+	}
+	n2, _, _, s2, ok2 := w.startGenuine(f, r, slug)
+	if !ok2 {
+		return w.reqCase(s2)
+	}
 	email := r.Pick(emailPool)
 	if r.Chance(0.6) {
 		email = r.Pick(emailPool[:5])
@@ -892,7 +907,7 @@ func (w *world) history(f *idp, r *c.Rng, hs *histScript) c.Case {
 	}
 
 	// 1. /start
-	st, outer := w.start(f, r, stOpts{Slug: h.Slug, Method: "GET", OuterOK: true, SigOK: true, Inner: goodRedirects[0]}, false)
+	st, outer := w.start(f, r, stOpts{Slug: h.Slug, Method: "GET", OuterOK: true, SigOK: true, Inner: goodRedirects[0], PlainSig: true}, false)
 	iStart := add(st)
 	stateVal := ""
 	if len(st.Obs.CsrfVals) == 1 {
@@ -1033,9 +1048,11 @@ func (w *world) corpus(f *idp, r *c.Rng) []c.Case {
 			out = append(out, w.reqCase(s))
 		}
 		// /callback: honest; state naming an out-of-domain redirect (right nonce); another flow's cookie
-		{
-			n1, st, outer, _ := w.startGenuine(f, r, slug)
-			n2, _, _, _ := w.startGenuine(f, r, slug)
+		if n1, st, outer, s1, ok1 := w.startGenuine(f, r, slug); !ok1 {
+			out = append(out, w.reqCase(s1))
+		} else if n2, _, _, s2, ok2 := w.startGenuine(f, r, slug); !ok2 {
+			out = append(out, w.reqCase(s2))
+		} else {
 			plain := n1 + ":" + outer
 			out = append(out, w.reqCase(w.callback(f, r, cbOpts{Slug: slug, Method: "GET", Code: "idp-c", HasState: true, State: st, Plain: &plain, Csrf: &n1,
 				Login: genLogin(r, slug, "alice@example.com", 0), From: -1}, true), "alice@example.com"))
